@@ -229,67 +229,6 @@ theorem dedup_any (acc : List OA) (x : OA) :
     acc.any (fun y => y.name == x.name && y.creator == x.creator) = true ↔ keyOA x ∈ acc.map keyOA := by
   simp only [List.any_eq_true, Bool.and_eq_true, beq_iff_eq, List.mem_map, keyOA, Prod.mk.injEq]
 
-/-- an entry survives `dedupList` iff it is the first with its (name, creator) -/
-theorem mem_dedupOA (l : List OA) : ∀ (acc : List OA) (o : OA),
-    o ∈ dedupOA acc l ↔ o ∈ acc ∨ (keyOA o ∉ acc.map keyOA ∧
-      ∃ pre post, l = pre ++ o :: post ∧ ∀ p ∈ pre, keyOA p ≠ keyOA o) := by
-  induction l with
-  | nil =>
-    intro acc o
-    simp [dedupOA]
-  | cons x xs ih =>
-    intro acc o
-    unfold dedupOA
-    by_cases hx : keyOA x ∈ acc.map keyOA
-    · have : acc.any (fun y => y.name == x.name && y.creator == x.creator) = true := (dedup_any acc x).mpr hx
-      simp only [this, ↓reduceIte]
-      rw [ih acc o]
-      constructor
-      · rintro (h | ⟨hk, pre, post, e, hp⟩)
-        · exact Or.inl h
-        · refine Or.inr ⟨hk, x :: pre, post, by rw [e]; rfl, ?_⟩
-          intro p hp'
-          rcases List.mem_cons.mp hp' with rfl | hp'
-          · intro e2; rw [e2] at hx; exact hk hx
-          · exact hp p hp'
-      · rintro (h | ⟨hk, pre, post, e, hp⟩)
-        · exact Or.inl h
-        · cases pre with
-          | nil =>
-            simp only [List.nil_append, List.cons.injEq] at e
-            rw [← e.1] at hk; exact absurd hx hk
-          | cons y ys =>
-            simp only [List.cons_append, List.cons.injEq] at e
-            exact Or.inr ⟨hk, ys, post, e.2, fun p hp' => hp p (by simp [hp'])⟩
-    · have : acc.any (fun y => y.name == x.name && y.creator == x.creator) = false := by
-        cases h : acc.any (fun y => y.name == x.name && y.creator == x.creator) with
-        | false => rfl
-        | true => exact absurd ((dedup_any acc x).mp h) hx
-      simp only [this, Bool.false_eq_true, ↓reduceIte]
-      rw [ih (acc ++ [x]) o]
-      simp only [List.mem_append, List.mem_singleton, List.map_append, List.map_cons, List.map_nil, not_or]
-      constructor
-      · rintro ((h | h) | ⟨⟨hk1, hk2⟩, pre, post, e, hp⟩)
-        · exact Or.inl h
-        · subst h
-          exact Or.inr ⟨hx, [], xs, rfl, by simp⟩
-        · refine Or.inr ⟨hk1, x :: pre, post, by rw [e]; rfl, ?_⟩
-          intro p hp'
-          rcases List.mem_cons.mp hp' with rfl | hp'
-          · intro e2; exact hk2 e2.symm
-          · exact hp p hp'
-      · rintro (h | ⟨hk, pre, post, e, hp⟩)
-        · exact Or.inl (Or.inl h)
-        · cases pre with
-          | nil =>
-            simp only [List.nil_append, List.cons.injEq] at e
-            exact Or.inl (Or.inr e.1.symm)
-          | cons y ys =>
-            simp only [List.cons_append, List.cons.injEq] at e
-            have hy : keyOA y ≠ keyOA o := hp y (by simp)
-            rw [← e.1] at hy
-            exact Or.inr ⟨⟨hk, fun e2 => hy e2.symm⟩, ys, post, e.2, fun p hp' => hp p (by simp [hp'])⟩
-
 theorem firstNamed_split (x : String) (pre post : List OA) (o : OA) (ho : o.name = x)
     (hpre : ∀ p ∈ pre, p.name ≠ x) : firstNamed x (pre ++ o :: post) = some (o.creator, o.deriver) := by
   induction pre with
@@ -318,34 +257,5 @@ theorem firstNamed_some (x : String) (l : List OA) (cr : String) (d : Bool) (h :
       rcases List.mem_cons.mp hp with rfl | hp
       · exact hy
       · exact h4 p hp
-
-/-- in the list of `n` an attribute name belongs to one creator (EXPRESS: attribute names are unique in an inheritance graph,
-    a redeclaration repeats the name of the attribute it redeclares) -/
-def KeyByName (l : List OA) : Prop := ∀ a ∈ l, ∀ b ∈ l, a.name = b.name → a.creator = b.creator
-
-theorem derivedCalls_closed (s : Schema) (n x cr : String) (hk : KeyByName (seg s (fuelOf s) n)) :
-    (x, cr) ∈ derivedCallsN s n ↔ callInfo s (fuelOf s) n x = some (cr, true) := by
-  unfold derivedCallsN
-  rw [populate_ctx, List.nil_append, ← firstNamed_seg]
-  generalize seg s (fuelOf s) n = L at hk
-  simp only [List.mem_map, List.mem_filter, Prod.mk.injEq]
-  constructor
-  · rintro ⟨o, ⟨ho, hd⟩, hx, hc⟩
-    rcases (mem_dedupOA L [] o).mp ho with h | ⟨_, pre, post, e, hp⟩
-    · simp at h
-    · rw [e, firstNamed_split x pre post o hx ?_, hc, hd]
-      intro p hp' hpx
-      have hpm : p ∈ L := by rw [e]; exact List.mem_append.mpr (Or.inl hp')
-      have hom : o ∈ L := by rw [e]; simp
-      have := hk p hpm o hom (by rw [hpx, hx])
-      exact hp p hp' (by simp [keyOA, hpx, hx, this])
-  · intro h
-    obtain ⟨pre, o, post, e, h1, h2, h3, h4⟩ := firstNamed_some x L cr true h
-    refine ⟨o, ⟨?_, h3⟩, h1, h2⟩
-    rw [mem_dedupOA]
-    refine Or.inr ⟨by simp, pre, post, e, ?_⟩
-    intro p hp hkey
-    simp only [keyOA, Prod.mk.injEq] at hkey
-    exact h4 p hp (by rw [hkey.1, h1])
 
 end StepModel.GenCxx
